@@ -378,11 +378,13 @@ static void iauth_xquery_x_reply(const char service[], const char routing[],
                         srv->name);
             srv->good_no_acct++;
         }
-    } else if (0 == strncmp(reply, "NO ", 3)) {
+    } else if (reply[0] == 'N' && reply[1] == 'O'
+               && (reply[2] == '\0' || reply[2] == ' ')) {
+        /* The message may be empty, with or without the space before it. */
         srv->bad++;
         if (req->account[0] != '\0')
             srv->bad_acct++;
-        iauth_kill(req, reply + 3);
+        iauth_kill(req, reply[2] ? reply + 3 : "");
         return;
     } else if (0 == strncmp(reply, "AGAIN ", 6)) {
         iauth_challenge(req, reply + 6);
